@@ -43,6 +43,7 @@ PROP = {
         "(c) the scripted peer never sends the error code -32000 (indistinguishable from the local timeout error) nor 0; response payloads are unique per delivery",
         "(c) the virtual clock advances in steps of at most 1000 ms, each followed by two idle loop passes, so the loop never lags a tick behind when the next request is issued; timeout window asserted: strictly more than (timeout-1) s after request(), and in the first loop pass at or after timeout s",
         "(c) serving side: the peer never reuses one of its own request ids, services do not call the Rpc from inside the service callback, respond() is called at most once per request and from the top level of a loop pass; 'answered in time' means no later than (timeout-1) s after the request",
+        "(c) several lives: cleanup() + initialize() are called from the top level of a loop pass on the same proto object, at most 4 lives; a request outstanding at cleanup() is abandoned (never completed by the code; tolerated: one timeout error); respond() is not called for peer requests of an earlier life",
         "(c) of two copies of a response for the same id inside one batch array both carry the same payload (JSON-RPC does not order a batch)",
         "stack exhaustion is tested up to 300 000 nesting levels / 4 MiB runs (8 MiB main-thread stack, ASan frames)",
     ],
@@ -65,12 +66,12 @@ META = {
                   "generated cuts (aimed into tricky strings, headers and frame boundaries), one frame per segment and byte by byte. (c) Histories of up to 48 requests "
                   "(top-level, from inside completion callbacks, from inside timeout callbacks), notifications, responses (matching, duplicate, late, unknown id, ids "
                   "congruent to a live id modulo 2^32, batched, delivered synchronously inside request() and inside completion callbacks), requests and notifications sent BY the "
-                  "peer to synchronous, deferring (answered in time / too late / never through respond()) and unregistered services under ids that collide with the Rpc's own, and clock advances, timeout "
+                  "peer to synchronous, deferring (answered in time / too late / never through respond()) and unregistered services under ids that collide with the Rpc's own, re-use of the Rpc object (cleanup() + initialize() with requests outstanding, up to 4 lives, answers to requests of earlier lives delivered later) and clock advances, timeout "
                   "1-5 s: every completion callback runs exactly once, with the delivered payload iff delivered while pending and during that delivery, otherwise "
                   "with the timeout error inside its one-tick window; no other response and no peer request causes a callback; each peer request gets at most one response and the documented one "
                   "(error -32601 / the service's synchronous answer / exactly the respond() answer when given before the respond timeout). Exploration only: no counter-example among N generated cases.",
     "level_note": "Trusted: nlohmann::json as the independent JSON parser/printer of the harness, the harness's 6-byte header reader, the scripted peer, ASan/UBSan. "
-                  "Five genuine defects were found and are fixed by harness/C14/proposed-fixes/01..05 (the check reports them again if they return; regression inputs in "
+                  "Six genuine defects were found and are fixed by harness/C14/proposed-fixes/01..06 (the check reports them again if they return; regression inputs in "
                   "corpus/C14/regress). Not asserted: which negative value onRecvData returns, what a parseable but non-JSON-RPC value decodes to (only that it is the same for "
                   "every segmentation), bounded buffering while a proto keeps answering 'need more', respond() after the respond timeout, the answer to a notification for an unregistered method, Rpc::cleanup() with requests pending, "
                   "timer catch-up after the loop was stalled for more than one tick.",
